@@ -510,3 +510,90 @@ def perDocAdds {α : Type} (vals : List (Option α)) : List (Nat × α) :=
   (vals.zipIdx).filterMap fun p => p.1.map fun v => (p.2, v)
 
 end WM.Columns
+
+namespace WM.Columns
+
+/-! ### Segment merge: `SegmentWriter.write_per_doc`, column part -/
+
+/-- `write_per_doc`: `cols[fieldname] = reader.column_reader(fieldname, coltype)` is opened only
+    `if coltype and reader.has_column(fieldname)` (raw column, not translated); then for every
+    live document of the reader, in order, `pdw.start_doc(self.docnum)` … `if fieldname in cols:
+    cv = cols[fieldname][docnum]; pdw.add_column_value(fieldname, coltype, cv)` … `self.docnum += 1`.
+    Returns the adds the new segment's column writer receives (`base` = the writer's document
+    count before the merge). -/
+def mergeColumnAdds {α : Type} (hasColumn : Bool) (read : Nat → Except Err α) (base : Nat) :
+    List Nat → Except Err (List (Nat × α))
+  | [] => .ok []
+  | old :: rest =>
+    if hasColumn then
+      match read old, mergeColumnAdds hasColumn read (base + 1) rest with
+      | .ok v, .ok adds => .ok ((base, v) :: adds)
+      | .error e, _ => .error e
+      | _, .error e => .error e
+    else .ok []
+
+/-! ### `MultiColumnReader` over the segments' readers, `EmptyColumnReader` -/
+
+/-- The column reader a segment contributes to `MultiReader.column_reader`: its own column
+    (`rows`, one per document) or, when the segment has no file for the column,
+    `EmptyColumnReader(default, doc_count_all)`. -/
+inductive SegCol (α : Type) where
+  | rows (r : List α)
+  | empty (count : Nat)
+
+/-- `len(reader)` / `doc_count_all()` of the segment. -/
+def SegCol.len {α : Type} : SegCol α → Nat
+  | .rows r => r.length
+  | .empty n => n
+
+/-- `reader[docnum]`: `EmptyColumnReader.__getitem__` returns the default for every argument. -/
+def SegCol.get {α : Type} (default : α) : SegCol α → Nat → Except Err α
+  | .rows r, i => match r[i]? with
+    | some v => .ok v
+    | none => .error .indexError
+  | .empty _, _ => .ok default
+
+/-- `MultiReader.column_reader(field)[docnum]` (with every segment taking part):
+    `MultiColumnReader(readers, doc_offsets).__getitem__`. -/
+def multiGet {α : Type} (default : α) (segs : List (SegCol α)) (docnum : Nat) : Except Err α :=
+  match multiLocate (deriveOffsets 0 (segs.map SegCol.len)) docnum with
+  | none => .error .indexError
+  | some (i, loc) =>
+    match segs[i]? with
+    | some s => s.get default loc
+    | none => .error .indexError
+
+/-! ### Stored fields of one document: `add_document` → `W3PerDocWriter.add_field/finish_doc` -/
+
+/-- One keyword argument of `add_document` for a schema field: the value (`None` = not supplied),
+    the `_stored_<name>` override (`none` = key absent, `some none` = passed as `None`) and the
+    field's `stored` flag. -/
+structure FieldIn (α : Type) where
+  name : String
+  value : Option α
+  override : Option (Option α)
+  stored : Bool
+
+/-- `customval = fields.get("_stored_%s" % fieldname, value)`. -/
+def FieldIn.custom {α : Type} (f : FieldIn α) : Option α :=
+  match f.override with
+  | none => f.value
+  | some o => o
+
+/-- One pass of `add_document`'s loop + `add_field`: `if value is None: continue` …
+    `sv = customval if field.stored else None` … `if sv is not None: self._storedfields[name] = sv`. -/
+def FieldIn.entry {α : Type} (f : FieldIn α) : Option (String × α) :=
+  match f.value with
+  | none => none
+  | some _ => if f.stored then f.custom.map fun v => (f.name, v) else none
+
+/-- The stored dict of a document (field names are the distinct keys of the keyword dict, visited
+    in sorted order). -/
+def storedDict {α : Type} (fields : List (FieldIn α)) : List (String × α) :=
+  fields.filterMap FieldIn.entry
+
+/-- `finish_doc`: `if sf: self.add_column_value("_stored", STORED_COLUMN, sf)`. -/
+def storedValue {α : Type} (fields : List (FieldIn α)) : Option (List (String × α)) :=
+  if (storedDict fields).isEmpty then none else some (storedDict fields)
+
+end WM.Columns
